@@ -3,6 +3,7 @@ import ParryModel.Shapes
 import ParryModel.C15.Model
 import ParryModel.C15.Cyclic
 import ParryModel.C15.Theorems2
+import ParryModel.C15.Theorems3
 /-!
 # C15 property theorems (2-D predicates), for every linearly ordered field.
 
@@ -1030,6 +1031,55 @@ theorem polygons_intersection_vertices_in_both_partial (order : List Nat) (poly1
     · rw [hl1, hl2, toPoint_ofSegLoc, toPoint_ofSegLoc]; exact e1
     · rw [hl1, toPoint_ofSegLoc]; exact e2
     · rw [hl1, toPoint_ofSegLoc]; have h3 := e3; rw [← e1] at h3; exact h3
+
+private theorem key_ofSegLoc (i j : Nat) (hij : j ≠ i) (s : K) :
+    letI := fieldNum K sq
+    centeredBcoords (PolyLoc.ofSegLoc i j (locOfParam s)) i = s := by
+  obtain ⟨_, v0, v1⟩ := locOfParam_spec sq (⟨0, 0⟩ : V2 K) ⟨0, 0⟩ s
+  by_cases h0 : s = 0
+  · rw [v0.2 h0]; simp [PolyLoc.ofSegLoc, centeredBcoords, h0]
+  · by_cases h1 : s = 1
+    · rw [v1.2 h1]; simp [PolyLoc.ofSegLoc, centeredBcoords, h1, hij]
+    · have e0 : ¬ (s ≤ 0 ∧ 0 ≤ s) := fun h => h0 (le_antisymm h.1 h.2)
+      have e1 : ¬ (s ≤ 1 ∧ 1 ≤ s) := fun h => h1 (le_antisymm h.1 h.2)
+      simp [locOfParam, neq, e0, e1, PolyLoc.ofSegLoc, centeredBcoords]
+
+/-- **the sort key is the edge parameter**: for a registered intersection point, `centered_bcoords` of its location on
+`poly1` (resp. `poly2`) is a number `t ∈ [0, 1]` and the point is `a + t (b - a)` on its edge `[a, b]` of that polygon.
+With `onEdge_sorted`: the per-edge lists are ordered along the edge, so "consecutive entries" in
+`walk_follows_boundaries` are geometric neighbours. -/
+theorem centeredBcoords_param (poly1 poly2 : Array (V2 K)) (eps : K) (ip : IPoint K) :
+    letI := fieldNum K sq
+    ip ∈ intersections poly1 poly2 eps →
+    (0 ≤ centeredBcoords ip.loc1 ip.e1 ∧ centeredBcoords ip.loc1 ip.e1 ≤ 1 ∧
+      ip.loc1.toPoint poly1 = linePt (edgeA poly1 ip.e1) (edgeB poly1 ip.e1) (centeredBcoords ip.loc1 ip.e1)) ∧
+    (0 ≤ centeredBcoords ip.loc2 ip.e2 ∧ centeredBcoords ip.loc2 ip.e2 ≤ 1 ∧
+      ip.loc2.toPoint poly2 = linePt (edgeA poly2 ip.e2) (edgeB poly2 ip.e2) (centeredBcoords ip.loc2 ip.e2)) := by
+  intro h
+  obtain ⟨h1, h2, l1, l2, hseg, hl1, hl2⟩ := @mem_intersections K (fieldNum K sq) poly1 poly2 _ ip h
+  obtain ⟨hc1, hc2⟩ := segments_point_nonparallel sq _ _ _ _ _ l1 l2 hseg
+  obtain ⟨hnone, hsome⟩ := seg_eval sq _ _ _ _ eps hc1 hc2
+  have hpos : (0 : K) < 1 / 2 ^ 52 := by positivity
+  have hD : crossDir (@edgeA K (fieldNum K sq) poly1 ip.e1) (@edgeB K (fieldNum K sq) poly1 ip.e1)
+      (@edgeA K (fieldNum K sq) poly2 ip.e2) (@edgeB K (fieldNum K sq) poly2 ip.e2) ≠ 0 :=
+    fun h0 => by rw [h0, abs_zero] at hc2; linarith
+  by_cases hr : OutOfRange (@edgeA K (fieldNum K sq) poly1 ip.e1) (@edgeB K (fieldNum K sq) poly1 ip.e1)
+      (@edgeA K (fieldNum K sq) poly2 ip.e2) (@edgeB K (fieldNum K sq) poly2 ip.e2)
+  · rw [hnone hr] at hseg; cases hseg
+  · rw [hsome hr] at hseg
+    simp only [Option.some.injEq, SegInter.point.injEq] at hseg
+    obtain ⟨rfl, rfl⟩ := hseg
+    simp only [OutOfRange, not_or, not_lt] at hr
+    obtain ⟨hs0, hs1, ht0, ht1⟩ := hr
+    -- the two end points of each edge have different indices (otherwise the edge would be a point and `crossDir = 0`)
+    have hj1 : (ip.e1 + 1) % poly1.size ≠ ip.e1 := by
+      intro hj; apply hD; unfold crossDir edgeB edgeA; rw [hj]; ring
+    have hj2 : (ip.e2 + 1) % poly2.size ≠ ip.e2 := by
+      intro hj; apply hD; unfold crossDir edgeB edgeA; rw [hj]; ring
+    rw [hl1, hl2, key_ofSegLoc sq _ _ hj1, key_ofSegLoc sq _ _ hj2, toPoint_ofSegLoc, toPoint_ofSegLoc]
+    refine ⟨⟨hs0, hs1, ?_⟩, ⟨ht0, ht1, ?_⟩⟩
+    · exact (locOfParam_spec sq _ _ _).1
+    · exact (locOfParam_spec sq _ _ _).1
 
 /-- a simple closed polygon: at least 3 vertices; two distinct edges meet only when they are consecutive, and then only in
 their common end point -/
